@@ -187,6 +187,49 @@ Theorem C18_nested_context_isolated :
 Proof. exact nested_context_isolated. Qed.
 Print Assumptions C18_nested_context_isolated.
 
+(* Whatever way a recipe asks for a fake value — block `fake: X`, dotted `fake.X:`, formula
+   `${{fake.X}}` / `${{fake.X()}}` (EvaluationNamespace.fake, StructuredValue.render,
+   FakerTemplateLibrary.__getattr__ + StringGenerator; dialect 2 or 3) — it is one [fake_step];
+   the harness runs every one of these forms for every spelling and compares with this step.
+   The step leaves local_vars alone except for ONE new binding under the canonical form of the
+   spelling used. *)
+Theorem C18_row_step_remembers_canonical :
+  forall tbl ni this_year q matching s v s',
+    fake_step tbl ni this_year q matching s = Ok (v, s') -> s_lv s' = (canon q, v) :: s_lv s.
+Proof. exact fake_step_lv. Qed.
+Print Assumptions C18_row_step_remembers_canonical.
+
+(* first and last name asked for in ANY spellings q1, q2 (all they share is the canonical form),
+   followed by any fakes that are not names: both are what the e-mail / username will see *)
+Theorem C18_row_names_reach_contact :
+  forall tbl ni y q1 m1 q2 m2 mid s v1 s1 v2 s2 vs s3,
+    canon q1 = "firstname"%string -> canon q2 = "lastname"%string ->
+    (forall q m, In (q, m) mid -> canon q <> "firstname"%string /\ canon q <> "lastname"%string) ->
+    fake_step tbl ni y q1 m1 s = Ok (v1, s1) ->
+    fake_step tbl ni y q2 m2 s1 = Ok (v2, s2) ->
+    run_fakes tbl ni y mid s2 = Ok (vs, s3) ->
+    assoc "firstname" (s_lv s3) = Some v1 /\ assoc "lastname" (s_lv s3) = Some v2.
+Proof. exact row_names_reach_contact. Qed.
+Print Assumptions C18_row_names_reach_contact.
+
+(* ... and when both are ASCII with a letter or digit each, the e-mail of that row IS one of the
+   templates filled with the cleaned names (never Faker's ascii_safe_email of random names) *)
+Theorem C18_row_email_from_names_any_spelling :
+  forall tbl ni y q1 m1 q2 m2 mid s v1 s1 v2 s2 vs s3 e s4,
+    canon q1 = "firstname"%string -> canon q2 = "lastname"%string ->
+    (forall q m, In (q, m) mid -> canon q <> "firstname"%string /\ canon q <> "lastname"%string) ->
+    fake_step tbl ni y q1 m1 s = Ok (v1, s1) ->
+    fake_step tbl ni y q2 m2 s1 = Ok (v2, s2) ->
+    run_fakes tbl ni y mid s2 = Ok (vs, s3) ->
+    isascii v1 = true -> isascii v2 = true ->
+    filter isalnum v1 <> [] -> filter isalnum v2 <> [] ->
+    fake_email y true s3 = Ok (e, s4) ->
+    exists t yy dom, 0 <= t < n_templates /\ 0 <= yy < n_years /\
+      In ("safe_domain_name"%string, dom) (s_flog s3) /\
+      email_matching (filter isalnum v1) (filter isalnum v2) t (y - 80 + yy) dom = Ok e.
+Proof. exact row_email_from_names_any_spelling. Qed.
+Print Assumptions C18_row_email_from_names_any_spelling.
+
 (* ---- non-vacuity: concrete instances of the hypotheses ---- *)
 Open Scope string_scope.
 
@@ -261,3 +304,25 @@ Example C18_ex_nested :
   = Ok [of_string "Jackson"; of_string "Miles"; of_string "Bernard"; of_string "Norton";
         of_string "J.Miles@example.org"].
 Proof. vm_compute. reflexivity. Qed.
+
+(* the recipe of notes/missed/r4_C18_2 (names asked for as ${{fake.first_name}} / ${{fake.LAST_NAME}},
+   then `fake: Email`): the spellings satisfy the hypotheses of the three theorems above, and the
+   row gives the same e-mail as with FirstName / LastName — built from Kristina Vega *)
+Example C18_ex_spellings_reach_email :
+  let tbl := build ("last_name" :: ex_fa) ex_sa in
+  let s0 := mkSt [] [("first_name", of_string "Kristina"); ("last_name", of_string "Vega");
+                     ("safe_domain_name", of_string "example.net")] [(60, 27); (71, 22)] in
+  canon "first_name" = "firstname" /\ canon "First_Name" = "firstname" /\ canon "LAST_NAME" = "lastname"
+  /\ run_ops tbl [] 2026 [OPush; OFake "first_name" true; OFake "LAST_NAME" true; OFake "Email" true; OPop] [] s0
+     = Ok [of_string "Kristina"; of_string "Vega"; of_string "K.Vega@example.net"]
+  /\ run_ops tbl [] 2026 [OPush; OFake "FirstName" true; OFake "LastName" true; OFake "Email" true; OPop] [] s0
+     = Ok [of_string "Kristina"; of_string "Vega"; of_string "K.Vega@example.net"]
+  /\ (exists v1 s1 v2 s2 e s4,
+        fake_step tbl [] 2026 "First_Name" true s0 = Ok (v1, s1) /\
+        fake_step tbl [] 2026 "LAST_NAME" false s1 = Ok (v2, s2) /\
+        isascii v1 = true /\ isascii v2 = true /\ filter isalnum v1 <> [] /\ filter isalnum v2 <> [] /\
+        fake_email 2026 true s2 = Ok (e, s4)).
+Proof.
+  vm_compute. repeat split; try reflexivity.
+  do 6 eexists. repeat split; try reflexivity; discriminate.
+Qed.
